@@ -163,6 +163,14 @@ func c13Run(c c13Case) c13Report {
 			if rng.Intn(3) == 0 {
 				spec.Attach = []gen.FileSpec{{Name: "a.bin", Content: body[:len(body)/4], Source: gen.Pick(rng, []string{"reader", "readseeker", "writer"}), Chunk: 1000}}
 			}
+			fromMbox, rcptMbox := spec.From.Addr, []string{spec.To[0].Addr, spec.To[1].Addr}
+			if rng.Intn(3) == 0 {
+				// envelope addresses whose local part has to be quoted on the wire, different for every message
+				spec.From.Addr = fmt.Sprintf("\"order desk %d.%d\"@sender.example", g, k)
+				fromMbox = fmt.Sprintf("order desk %d.%d@sender.example", g, k)
+				spec.To[0].Addr = fmt.Sprintf("\"r %d,%d;a\"@rcpt.example", g, k)
+				rcptMbox[0] = fmt.Sprintf("r %d,%d;a@rcpt.example", g, k)
+			}
 			if c.SMIME && rng.Intn(2) == 0 {
 				// signed with SignWithTLSCertificate: every signed message of the process shares one *tls.Certificate
 				spec.SMIME, spec.SignVia, spec.WithInt = gen.Pick(rng, []string{"rsa", "ecdsa"}), "tlscert", rng.Intn(2) == 0
@@ -175,7 +183,7 @@ func c13Run(c c13Case) c13Report {
 				add("harness", "build: "+err.Error(), "")
 				return rep
 			}
-			cm := &c13Msg{signed: spec.SMIME != "", keyType: spec.SMIME, withInt: spec.WithInt, id: id, g: g, k: k, msg: m, from: spec.From.Addr, rcpts: []string{spec.To[0].Addr, spec.To[1].Addr}}
+			cm := &c13Msg{signed: spec.SMIME != "", keyType: spec.SMIME, withInt: spec.WithInt, id: id, g: g, k: k, msg: m, from: fromMbox, rcpts: rcptMbox}
 			ms = append(ms, cm)
 			all[id] = cm
 		}
@@ -425,7 +433,7 @@ func c13Child(args []string) int {
 
 func runC13(r *ev.Run, rep *ev.ReplayDoc) ev.Summary {
 	sum := ev.Summary{
-		Rule: "G in {2,4,8,16,32,64} goroutines, each sending a batch of 1-3 distinct messages (unique ids and envelopes, 100 B - 300 KB, some with producers that yield or sleep between chunks, in every third repetition about half of them S/MIME signed through SignWithTLSCertificate with one shared certificate value) through ONE mail.Client: all via Send on one established connection, all via DialAndSend, and mixed (in half of the DialAndSend / mixed repetitions the Client has a fallback port and nothing answers on the primary one); the reference server adds seeded latency jitter to every reply and reads DATA slowly. Every repetition runs in its own child process built with -race. non-trivial = at least two Sends were in flight at a commit instant; distinct by commit order",
+		Rule: "G in {2,4,8,16,32,64} goroutines, each sending a batch of 1-3 distinct messages (unique ids and envelopes - a third of them with local parts that need quoting -, 100 B - 300 KB, some with producers that yield or sleep between chunks, in every third repetition about half of them S/MIME signed through SignWithTLSCertificate with one shared certificate value) through ONE mail.Client: all via Send on one established connection, all via DialAndSend, and mixed (in half of the DialAndSend / mixed repetitions the Client has a fallback port and nothing answers on the primary one); the reference server adds seeded latency jitter to every reply and reads DATA slowly. Every repetition runs in its own child process built with -race. non-trivial = at least two Sends were in flight at a commit instant; distinct by commit order",
 		Assumptions: []string{
 			"exactly-once, envelope/content pairing and transaction contiguity are judged from the reference server's per-connection logs; expected renderings are produced after all sends returned",
 			"porcupine (v1.3.0) checks that the shared connection's commit log is a linearization of the Send calls w.r.t. an append-only-log model; a checker timeout is inconclusive",
